@@ -655,6 +655,9 @@ def run(ctx):
         traces.append((tf, "race-random"))
         tf, res = harness(rbin, "bulk", "race-bulk", ["-n", "6000", "-enders", "4"], env=env)   # incl. the limit-0 hammer
         traces.append((tf, "race-bulk"))
+        # user code that panics: the callers of the "during"/"after" phases run next to the handler's unwinding
+        tf, res = harness(rbin, "panics", "race-panics-random", ["-n", "3000"], seed=ctx.seed * 1000 + 98, env=env)
+        traces.append((tf, "race-panics-random"))
         for f in glob.glob(rlog + ".*"):
             race_reports += parse_race(open(f, errors="replace").read())
         ctx.extra["race_reports"] = len(race_reports)
